@@ -10,6 +10,7 @@ final wire must be equal.
 from __future__ import annotations
 
 import asyncio
+import contextlib
 import itertools
 import socket as _socket
 
@@ -334,13 +335,19 @@ class Session:
                 lower, tlskit.client_ctx(tlskit.TLS13), server_side=False, server_hostname="localhost"))
             lower.gated = True
             self._keep.append(tls)
-            self.send = tls.send_all
+            self.tls = tls
         else:
             raise ValueError(kind)
 
     async def _program(self, prog):
         for pkt in prog:
-            await self.send(pkt if isinstance(pkt, bytes) else tuple(pkt))
+            if self.kind in (KIND_TLS, KIND_TLS_FAIR):
+                if len(pkt) == 1:
+                    await self.tls.send_all(pkt[0])
+                else:
+                    await self.tls.send_all_from_iterable(iter(pkt))
+            else:
+                await self.send(tuple(pkt))
 
     def status(self, t):
         task = self.tasks[t]
@@ -450,6 +457,10 @@ def _listener():
     return _LISTENER
 
 
+A_TSTART = 6      # thread kinds: start a thread whose send_packet uses timeout=SHORT_TIMEOUT
+SHORT_TIMEOUT = 0.05
+
+
 class ThreadCtl:
     """gates every socket.send / sendmsg of the client's socket: the calling thread parks (holding the client's send lock)
     until the script releases it, then the 'kernel' accepts the next scripted number of bytes"""
@@ -465,23 +476,35 @@ class ThreadCtl:
         self.released = set()
         self.gate_log = []              # order in which threads got hold of the socket
         self.errors = []
+        self.abort = False
+
+    def fail(self, msg):
+        self.errors.append(msg)
+        self.abort = True
+        self.cv.notify_all()
 
     def gate(self, avail):
         import threading
 
         name = threading.current_thread().name
         with self.cv:
+            if self.abort:
+                raise RuntimeError("harness aborted")
             if self.at_gate is not None:
-                self.errors.append(f"{name} entered send while {self.at_gate} is inside send")
+                self.fail(f"thread {name} entered socket.send while thread {self.at_gate} is parked inside its own send "
+                          f"(the client's send lock does not exclude them)")
+                raise RuntimeError("harness: overlapping sends")
             self.at_gate = name
             self.gate_log.append(name)
             self.cv.notify_all()
-            ok = self.cv.wait_for(lambda: name in self.released, timeout=self.WATCHDOG)
+            ok = self.cv.wait_for(lambda: name in self.released or self.abort, timeout=self.WATCHDOG)
             self.released.discard(name)
             self.at_gate = None
             self.cv.notify_all()
+            if self.abort:
+                raise RuntimeError("harness aborted")
             if not ok:
-                self.errors.append(f"watchdog: {name} was never released")
+                self.fail(f"watchdog: {name} was never released")
                 raise TimeoutError("harness watchdog")
             k = self.sizes[name].pop(0) if self.sizes.get(name) else avail
         return max(1, min(k, avail))
@@ -507,7 +530,7 @@ def _parse_stream(wire):
         if not wire[pos] & 0x80 or pos + 3 > len(wire):
             return None
         end = pos + 3 + wire[pos + 2]
-        if end > len(wire) or any(b & 0x80 for b in wire[pos + 1:end] if False):
+        if end > len(wire) or any(b & 0x80 for b in wire[pos + 1:end]):
             return None
         out.append(bytes(wire[pos:end]))
         pos = end
@@ -517,6 +540,7 @@ def _parse_stream(wire):
 def run_threads(kind, progs, actions, detail=False):
     """returns [sorted packets received by the peer (or [raw wire] when the stream does not parse), statuses]"""
     import threading
+    import time
 
     from easynetwork.protocol import DatagramProtocol
     from easynetwork.serializers.abc import AbstractPacketSerializer
@@ -529,7 +553,6 @@ def run_threads(kind, progs, actions, detail=False):
     else:
         sizes = {names[t]: [1 << 20 for _pkt in progs[t]] for t in range(n)}
     ctl = ThreadCtl(sizes)
-    peer = None
     if kind == KIND_THREAD_TCP:
         from easynetwork.clients.tcp import TCPNetworkClient
 
@@ -556,26 +579,39 @@ def run_threads(kind, progs, actions, detail=False):
         sock.connect(peer.getsockname())
         client = UDPNetworkClient(sock, DatagramProtocol(JoinSerializer()))
     results = {}
+    threads = {}
 
-    def body(t):
+    def body(t, timeout):
         try:
             for pkt in progs[t]:
-                client.send_packet(tuple(pkt))
+                client.send_packet(tuple(pkt), timeout=timeout)
             results[t] = 10
         except OSError:
             results[t] = 13
         except BaseException:
             results[t] = 14
+        finally:
+            with ctl.cv:
+                ctl.cv.notify_all()
 
-    threads = {}
+    def alive():
+        return [th for th in threads.values() if th.is_alive()]
+
+    def wait_until(pred):
+        """poll (a dying thread notifies, but is_alive() flips a moment later)"""
+        deadline = time.monotonic() + ThreadCtl.WATCHDOG
+        while True:
+            with ctl.cv:
+                if ctl.abort or pred():
+                    return True
+                ctl.cv.wait(0.002)
+            if time.monotonic() > deadline:
+                with ctl.cv:
+                    ctl.fail("watchdog: the threads did not come to rest")
+                return False
 
     def quiescent():
-        return ctl.at_gate is not None or not any(th.is_alive() for th in threads.values())
-
-    def wait_quiet():
-        with ctl.cv:
-            if not ctl.cv.wait_for(lambda: quiescent() and not ctl.released, timeout=ThreadCtl.WATCHDOG):
-                ctl.errors.append("watchdog: no quiescence")
+        return not ctl.released and (ctl.at_gate is not None or not alive())
 
     def release_one():
         with ctl.cv:
@@ -584,69 +620,70 @@ def run_threads(kind, progs, actions, detail=False):
                 return False
             ctl.released.add(who)
             ctl.cv.notify_all()
-            ctl.cv.wait_for(lambda: who not in ctl.released, timeout=ThreadCtl.WATCHDOG)
         return True
 
     try:
         for a in actions:
-            if a[0] == A_START and a[1] not in threads:
-                th = threading.Thread(target=body, args=(a[1],), name=names[a[1]], daemon=True)
-                threads[a[1]] = th
+            if ctl.abort:
+                break
+            if a[0] in (A_START, A_TSTART) and a[1] not in threads:
+                t = a[1]
+                th = threading.Thread(target=body, args=(t, None if a[0] == A_START else SHORT_TIMEOUT), name=names[t], daemon=True)
+                threads[t] = th
                 th.start()
-                # a finished thread is only seen by polling: is_alive() does not notify the condition
-                for _ in range(2000):
-                    wait_ok = False
-                    with ctl.cv:
-                        wait_ok = ctl.cv.wait_for(quiescent, timeout=0.01)
-                    if wait_ok:
-                        break
+                if a[0] == A_TSTART:
+                    # it either times out on the lock (held by the thread parked in send) or gets into send itself
+                    wait_until(lambda: not th.is_alive() or ctl.at_gate == names[t])
+                wait_until(quiescent)
             elif a[0] == A_OK:
                 if release_one():
-                    for _ in range(2000):
-                        with ctl.cv:
-                            if ctl.cv.wait_for(lambda: quiescent() and not ctl.released, timeout=0.01):
-                                break
+                    wait_until(quiescent)
         # epilogue: let every send finish
-        for _ in range(10000):
-            with ctl.cv:
-                done = ctl.at_gate is None and not any(th.is_alive() for th in threads.values())
-            if done:
+        for _ in range(100000):
+            if ctl.abort:
                 break
-            if not release_one():
-                with ctl.cv:
-                    ctl.cv.wait_for(quiescent, timeout=0.01)
+            wait_until(quiescent)
+            if not alive() and ctl.at_gate is None:
+                break
+            release_one()
+        with ctl.cv:
+            if ctl.abort:
+                ctl.released.update(names)
+                ctl.cv.notify_all()
         for th in threads.values():
             th.join(ThreadCtl.WATCHDOG)
             if th.is_alive():
                 ctl.errors.append(f"watchdog: thread {th.name} did not finish")
-        if kind == KIND_THREAD_TCP:
-            client.close()
-            peer.settimeout(5.0)
-            wire = bytearray()
-            while True:
-                chunk = peer.recv(65536)
-                if not chunk:
-                    break
-                wire += chunk
-            pk = _parse_stream(wire)
-            packets = sorted(pk) if pk is not None else [bytes(wire)]
-        else:
-            peer.settimeout(0.2)
-            packets = []
-            expected = sum(len(progs[t]) for t in threads)
-            try:
-                while len(packets) < expected:
-                    packets.append(peer.recv(65536))
-            except (TimeoutError, OSError):
-                pass
-            client.close()
-            packets.sort()
+        packets = []
+        if not ctl.errors:
+            if kind == KIND_THREAD_TCP:
+                client.close()
+                peer.settimeout(5.0)
+                wire = bytearray()
+                while True:
+                    chunk = peer.recv(65536)
+                    if not chunk:
+                        break
+                    wire += chunk
+                pk = _parse_stream(wire)
+                packets = sorted(pk) if pk is not None else [bytes(wire)]
+            else:
+                peer.settimeout(0.2)
+                expected = sum(len(progs[t]) for t in threads if results.get(t) == 10)
+                try:
+                    while len(packets) < expected + 1:
+                        packets.append(peer.recv(65536))
+                except (TimeoutError, OSError):
+                    pass
+                client.close()
+                packets.sort()
     finally:
         with ctl.cv:
-            ctl.released.update(names)
+            ctl.abort = True
             ctl.cv.notify_all()
-        if peer is not None:
-            peer.close()
+        with contextlib.suppress(Exception):
+            client.close()
+        peer.close()
     if ctl.errors:
         raise RuntimeError("; ".join(ctl.errors))
     statuses = [results.get(t, 0) if t in threads else 0 for t in range(n)]
@@ -759,10 +796,14 @@ def oracle_threads(kind, progs, actions):
     except RuntimeError as exc:
         return f"interleaved: {exc}"
     started = sorted({a[1] for a in actions if a[0] == A_START})
-    want = sorted(b"".join(pkt) for t in started for pkt in progs[t])
+    timed = sorted({a[1] for a in actions if a[0] == A_TSTART} - set(started))
     for t in started:
         if statuses[t] != 10:
             return f"send failed: thread {t} ended with code {statuses[t]}"
+    for t in timed:
+        if statuses[t] not in (10, 13):
+            return f"send failed: thread {t} (send with a timeout) ended with code {statuses[t]}"
+    want = sorted(b"".join(pkt) for t in started + timed if statuses[t] == 10 for pkt in progs[t])
     if packets != want:
         return f"interleaved: the peer received {[p.hex() for p in packets]} instead of the packets {[p.hex() for p in want]}"
     return None
@@ -876,13 +917,23 @@ KIND_NAMES = {KIND_TLS: "tls.send_all", KIND_TLS_FAIR: "tls.send_all/fairlock", 
 
 
 def _thread_case(kind, progs, acts, tag):
-    started = {a[1] for a in acts if a[0] == A_START}
+    started = {a[1] for a in acts if a[0] in (A_START, A_TSTART)}
     return dict(input=[kind, progs, acts], tags=[KIND_NAMES[kind], tag, f"tasks{len(progs)}"], nontrivial=len(started) >= 2)
 
 
 def mkplain(shape, rng=None):
-    """TLS: one plaintext (a whole framed packet) per send"""
-    return [[mkpacket(t, seq, 1 + (rng.randrange(4) if rng else seq)) for seq in range(k)] for t, k in enumerate(shape)]
+    """TLS: per task a list of framed packets, each cut into 1-3 chunks (1 chunk: send_all, more: send_all_from_iterable)"""
+    progs = []
+    for t, k in enumerate(shape):
+        prog = []
+        for seq in range(k):
+            data = mkpacket(t, seq, 1 + (rng.randrange(4) if rng else seq))
+            nch = rng.choice([1, 2, 2, 3]) if rng else 1 + (t + seq) % 2
+            pos = list(range(1, len(data)))
+            cuts = sorted(rng.sample(pos, nch - 1)) if rng else pos[: nch - 1]
+            prog.append(cut(data, cuts))
+        progs.append(prog)
+    return progs
 
 
 def _case(kind, progs, acts, tag):
@@ -926,11 +977,25 @@ def cases(tier, rng, escalate):
         for _ in range(count):
             ntasks = rng.choice([2, 3, 3, 4])
             shape = [[rng.choice([1, 1, 2, 3]) for _ in range(rng.choice([1, 1, 2]))] for _ in range(ntasks)]
+            timed = [t for t in range(ntasks) if rng.random() < 0.25]
+            for t in timed:
+                shape[t] = shape[t][:1]       # a sender with a timeout sends one packet
             progs = mkprogs(shape, rng)
-            pool = [[A_START, t] for t in range(ntasks) if rng.random() < 0.9]
+            pool = [[A_TSTART if t in timed else A_START, t] for t in range(ntasks) if rng.random() < 0.9]
             pool += [[A_OK, 0]] * rng.randrange(0, 2 + sum(sum(sh) for sh in shape))
             rng.shuffle(pool)
-            yield _thread_case(kind, progs, pool, "random")
+            c = _thread_case(kind, progs, pool, "random")
+            if timed:
+                c["tags"].append("lock-timeout")
+            yield c
+        # a sender parked mid-packet, a second send that times out on the lock, a third sender
+        for perm in ([0, 1, 2], [0, 2, 1]) if kind == KIND_THREAD_TCP else ([0, 1, 2],):
+            progs = mkprogs([[2], [1], [2]])
+            acts = [[A_START, perm[0]], [A_TSTART, 1] if perm[1] == 1 else [A_START, perm[1]],
+                    [A_TSTART, 1] if perm[2] == 1 else [A_START, perm[2]], [A_OK, 0]]
+            c = _thread_case(kind, progs, acts, "exhaustive")
+            c["tags"].append("lock-timeout")
+            yield c
     # random part
     n_random = 5000 if thorough else 900
     for _ in range(n_random):
